@@ -274,6 +274,11 @@ func (db *Database) SearchUniversal(query string, options SearchOptions) []Searc
 		options.Limit = 10
 	}
 
+	// Fold case once, up front: the tokeniser drops non-ASCII characters before it
+	// lower-cases, so a letter such as U+212A KELVIN SIGN (lower case 'k') was lost
+	// while its case variants 'k' and 'K' were kept.
+	query = strings.ToLower(query)
+
 	terms := normalizeAndTokenize(query)
 	var pq *nlp.ProcessedQuery
 
